@@ -26,6 +26,9 @@ type config struct {
 	args  []string
 	// replay: operation lines grouped by case (nil when generating)
 	replay [][]string
+	// corpus: minimised past failures, same format, run first
+	corpus [][]string
+	nextID int
 }
 
 func readReplay(path string) [][]string {
@@ -64,6 +67,7 @@ func main() {
 	tier := fs.String("tier", "quick", "quick|thorough")
 	out := fs.String("out", ".", "output directory")
 	replay := fs.String("replay", "", "file of operation lines to execute instead of generating cases")
+	corpus := fs.String("corpus", "", "directory of *.txt operation files (past failures) that run before anything else")
 	fs.Parse(os.Args[2:])
 	if s := os.Getenv("VERIF_SEED"); s != "" && !flagSet(fs, "seed") {
 		if v, err := strconv.ParseUint(s, 10, 64); err == nil {
@@ -84,8 +88,25 @@ func main() {
 	if *replay != "" {
 		cfg.replay = readReplay(*replay)
 	}
+	if *corpus != "" {
+		if ents, err := os.ReadDir(*corpus); err == nil {
+			for _, e := range ents {
+				if strings.HasSuffix(e.Name(), ".txt") {
+					cfg.corpus = append(cfg.corpus, readReplay(*corpus+"/"+e.Name())...)
+				}
+			}
+		}
+	}
 	keep := os.Stdout
 	hx.Quiet()
+	if cfg.corpus != nil && cfg.replay == nil {
+		// the corpus goes through the command's replay interpreter, then generation follows
+		cfg.replay = cfg.corpus
+		fn(cfg)
+		cfg.st.Add("corpus-cases", cfg.tr.Cases)
+		cfg.replay = nil
+		cfg.nextID = cfg.tr.Cases
+	}
 	fn(cfg)
 	cfg.tr.Close()
 	cfg.st.Write(*out, map[string]interface{}{"cases": cfg.tr.Cases, "ops": cfg.tr.Ops, "seed": *seed, "tier": *tier})
